@@ -14,6 +14,7 @@ import (
 
 	"github.com/gotd/td/telegram/updates"
 	"github.com/gotd/td/tg"
+	"github.com/gotd/td/tgerr"
 )
 
 // ---------------------------------------------------------------------------
@@ -104,6 +105,9 @@ type run struct {
 	strays       int
 	badHash      int
 	storm        bool
+	chain        map[string]int // position of the next request in the current chain, per sequence
+	errBudget    map[string]int
+	tlBudget     map[string]int
 	tracked      map[int64]bool // channels the library has a worker for (from the image, or first seen during the run)
 
 	mgr     *updates.Manager
@@ -119,7 +123,7 @@ func newRun(sc *scenario, initial *snapshot, occurred int, pushPhase bool, seed 
 		probe:   map[int64]int64{}, waiters: map[int64]chan struct{}{}, seen: map[int64]bool{},
 		genuineChTL: map[int64]int{}, wprobePushed: map[int64]int{}, wprobeCount: map[int64]int{}, wprobeNeed: map[int64]int{},
 		wprobeWait: map[int64]chan struct{}{},
-		nextMarker: markerBase, tracked: map[int64]bool{},
+		nextMarker: markerBase, tracked: map[int64]bool{}, chain: map[string]int{}, errBudget: map[string]int{}, tlBudget: map[string]int{},
 	}
 	// Manager.loadChannels tracks every stored channel whose access hash is known.
 	for id := range r.store.Ch {
@@ -339,7 +343,24 @@ func (sc *scenario) container(ev *event) tg.UpdatesClass {
 
 // ---- fake Telegram API ------------------------------------------------------
 
-var errInjected = errors.New("harness: injected RPC failure")
+var (
+	errInjected = errors.New("harness: injected RPC failure")
+	errFlood    = tgerr.New(420, "FLOOD_WAIT_0")
+)
+
+// chainFault decides, under r.mu, whether the request that is the pos-th of its
+// chain gets an injected RPC error. Bounded (two per sequence) so that recovery
+// always converges.
+func (r *run) chainFault(key string, pos int) error {
+	if r.sc.ErrK == 0 || pos != r.sc.ErrK || r.errBudget[key] >= 2 {
+		return nil
+	}
+	r.errBudget[key]++
+	if r.errBudget[key] == 2 {
+		return errFlood
+	}
+	return errInjected
+}
 
 func (r *run) visible(cls seqClass, ch int64) (list []*entry, head int) {
 	switch cls {
@@ -400,10 +421,19 @@ func (r *run) UpdatesGetDifference(ctx context.Context, req *tg.UpdatesGetDiffer
 		return nil, errStorm
 	}
 	ev := tev{T: "diff", ReqPts: req.Pts, ReqQts: req.Qts, ReqDate: req.Date}
+	r.chain["pts"]++
+	pos := r.chain["pts"]
 	if r.pushPhase && r.sc.ErrPct > 0 && r.errRand.IntN(100) < r.sc.ErrPct {
 		ev.Resp = "error"
 		r.rec(ev)
+		r.chain["pts"] = 0
 		return nil, errInjected
+	}
+	if err := r.chainFault("pts", pos); err != nil {
+		ev.Resp, ev.Note = "error", fmt.Sprintf("chain request %d: %v", pos, err)
+		r.rec(ev)
+		r.chain["pts"] = 0
+		return nil, err
 	}
 	ptsList, headPts := r.visible(clsPts, 0)
 	qtsList, headQts := r.visible(clsQts, 0)
@@ -419,9 +449,15 @@ func (r *run) UpdatesGetDifference(ctx context.Context, req *tg.UpdatesGetDiffer
 			dueQts = append(dueQts, e)
 		}
 	}
-	if r.sc.TooLongCommon > 0 && len(duePts) > r.sc.TooLongCommon {
+	chainTL := r.sc.ChainTooLong && pos >= 2 && len(duePts) > 0 && r.tlBudget["pts"] == 0
+	if chainTL || (r.sc.TooLongCommon > 0 && len(duePts) > r.sc.TooLongCommon) {
+		if chainTL {
+			r.tlBudget["pts"]++
+			ev.Note = fmt.Sprintf("too long as piece %d of a sliced chain", pos)
+		}
 		ev.Resp, ev.Pts = "tooLong", headPts
 		r.rec(ev)
+		// the library continues with another request: same chain
 		return &tg.UpdatesDifferenceTooLong{Pts: headPts}, nil
 	}
 	final := true
@@ -435,6 +471,12 @@ func (r *run) UpdatesGetDifference(ctx context.Context, req *tg.UpdatesGetDiffer
 			dueQts, final = dueQts[:l], false
 			stateQts = dueQts[l-1].End
 		}
+		if final && r.sc.SliceExact && len(duePts)+len(dueQts) > 0 {
+			final = false // the chain reaches the head with final=false; its last piece is differenceEmpty
+		}
+	}
+	if final {
+		r.chain["pts"] = 0
 	}
 	var (
 		msgs   []tg.MessageClass
@@ -524,10 +566,20 @@ func (r *run) UpdatesGetChannelDifference(ctx context.Context, req *tg.UpdatesGe
 		return nil, errors.New("CHANNEL_INVALID")
 	}
 	ev := tev{T: "chdiff", Ch: spec.ID, ReqPts: req.Pts}
+	key := fmt.Sprintf("ch:%d", spec.ID)
+	r.chain[key]++
+	pos := r.chain[key]
 	if r.pushPhase && r.sc.ErrPct > 0 && r.errRand.IntN(100) < r.sc.ErrPct {
 		ev.Resp = "error"
 		r.rec(ev)
+		r.chain[key] = 0
 		return nil, errInjected
+	}
+	if err := r.chainFault(key, pos); err != nil {
+		ev.Resp, ev.Note = "error", fmt.Sprintf("chain request %d: %v", pos, err)
+		r.rec(ev)
+		r.chain[key] = 0
+		return nil, err
 	}
 	list, head := r.visible(clsChan, spec.ID)
 	var due []*entry
@@ -536,7 +588,13 @@ func (r *run) UpdatesGetChannelDifference(ctx context.Context, req *tg.UpdatesGe
 			due = append(due, e)
 		}
 	}
-	if r.sc.TooLongChan > 0 && len(due) > r.sc.TooLongChan {
+	chainTL := r.sc.ChainTooLong && pos >= 2 && len(due) > 0 && r.tlBudget[key] == 0
+	if chainTL || (r.sc.TooLongChan > 0 && len(due) > r.sc.TooLongChan) {
+		if chainTL {
+			r.tlBudget[key]++
+			ev.Note = fmt.Sprintf("too long as piece %d of a sliced chain", pos)
+		}
+		r.chain[key] = 0
 		ev.Resp, ev.Pts, ev.Final = "tooLong", head, true
 		r.rec(ev)
 		r.genuineChTL[spec.ID]++
@@ -552,6 +610,11 @@ func (r *run) UpdatesGetChannelDifference(ctx context.Context, req *tg.UpdatesGe
 	if l > 0 && len(due) > l {
 		due, final = due[:l], false
 		pts = due[l-1].End
+	} else if r.sc.ChSliceL > 0 && r.sc.ChSliceExact && len(due) > 0 {
+		final = false // the chain reaches the head with final=false; its last piece is channelDifferenceEmpty
+	}
+	if final {
+		r.chain[key] = 0
 	}
 	var (
 		msgs   []tg.MessageClass
@@ -1056,7 +1119,7 @@ func (r *run) round() (fixpoint, ok bool) {
 		case "deliver":
 			fixpoint = false
 		case "diff", "chdiff":
-			if len(e.Msgs)+len(e.Others)+len(e.ChOth)+len(e.Aff) > 0 || e.Resp == "tooLong" || e.Resp == "slice" {
+			if len(e.Msgs)+len(e.Others)+len(e.ChOth)+len(e.Aff) > 0 || e.Resp == "tooLong" || e.Resp == "slice" || e.Resp == "error" {
 				fixpoint = false
 			}
 		}
